@@ -228,7 +228,18 @@ func (set *SortedSet) AddOrUpdate(
 			continue
 		}
 		// Policy not specified, just Set the elements and scores
-		if set.members[m.Value].Score != m.Score || !set.members[m.Value].Exists {
+		if !set.Contains(m.Value) {
+			// GT and LT only restrict the update of an existing member, a new member is always added
+			// with the given score (there is no current score to compare it with).
+			set.members[m.Value] = MemberObject{
+				Value:  m.Value,
+				Score:  m.Score,
+				Exists: true,
+			}
+			count += 1
+			continue
+		}
+		if set.members[m.Value].Score != m.Score {
 			count += 1
 		}
 		set.members[m.Value] = MemberObject{
